@@ -316,4 +316,4 @@ package hessian
 
 //@ func binaryEndTag
 //@   pure
-//@   ensures [C03,C09:tag-binary-final] result == (tag == 'B' || (0x20 <= tag && tag <= 0x2f))
+//@   ensures [C03,C09:tag-binary-final] result == G.isBinFinal(tag)
